@@ -9,6 +9,7 @@ import Driver.Ops
 import Driver.Swc
 import Driver.CableDual
 import Driver.SolveJaxley
+import Driver.InitStates
 open Driver
 
 def handle (line : String) : String :=
@@ -31,6 +32,7 @@ def handle (line : String) : String :=
   | "cabledual" :: rest => handleCableDual rest
   | "swc" :: rest => handleSwc rest
   | "jsolve" :: rest => handleJSolve rest
+  | "initst" :: rest => handleInitSt rest
   | "ping" :: _ => "pong"
   | _ => "bad-op"
 
